@@ -300,7 +300,19 @@ func WorkerMain(t *testing.T) {
 		// print generated programs
 		for i := 0; i < *flagN; i++ {
 			seed := *flagSeed + uint64(i)
-			p := Generate(NewTape(seed*2+1), DefaultGenCfg())
+			var p *Prog
+			switch *flagProfile {
+			case "narrow":
+				p = templateNarrowProg(NewTape(seed*2 + 1))
+			case "forkorder":
+				p = templateForkOrderProg(NewTape(seed*2 + 1))
+			case "disabled":
+				p = templateDisabledProg(NewTape(seed*2 + 1))
+			case "vdr":
+				p = templateVdrProg(NewTape(seed*2 + 1))
+			default:
+				p = Generate(NewTape(seed*2+1), DefaultGenCfg())
+			}
 			fmt.Printf("# ---- seed %d ----\n%s\n", seed, p.Source())
 		}
 	default:
